@@ -5,7 +5,7 @@ import os
 import time
 
 import common as C
-from tree import load_history
+from tree import load_history, load_meta
 
 
 def model_check(runs, verdict, neg_controls=()):
@@ -76,7 +76,9 @@ def validate_forests(files, module, cfg, verdict, sig_fn, workers_per=4, paralle
     for v in tot["bad"]:
         hist = load_history(v["file"], v["node"])
         sig = sig_fn(v["clause"], hist)
-        verdict.violation(sig, {"clause": v["clause"], "history": hist})
+        rep = {"clause": v["clause"], "history": hist}
+        rep.update(load_meta(v["file"]))
+        verdict.violation(sig, rep)
     return tot
 
 
@@ -87,3 +89,92 @@ def drift_note(tot, verdict, what):
         verdict.note("%s: the implementation-shaped model no longer matches the code's internal state at %d tree nodes "
                      "(first: %s); the contract verdicts above still stand, the refinement argument does not transfer"
                      % (what, len(tot["drift"]), json.dumps([[h.get("op")] + [h.get(k) for k in ("path", "id", "args") if k in h] for h in hist])[:300]))
+
+
+def run_component(pid, tier, seed, driver, trace_module, trace_cfg, mc_runs, neg_controls, sig_fn, sample_fn,
+                  assumptions, impl_name, rule, driver_timeout=7200, workers_per=2, parallel=8, extra_cov=None):
+    """The whole pattern-A check: spec-level TLC runs, drive the real object, validate the forests, write evidence."""
+    import subprocess
+    t0 = time.time()
+    v = C.Verdict(pid)
+    out_dir = C.scratch(pid.lower())
+    mc = model_check(mc_runs, v, neg_controls=neg_controls)
+    p = C.run_py(driver, [out_dir, tier, seed], timeout=driver_timeout)
+    summary = None
+    if p.returncode != 0:
+        v.machinery_failure("driver failed: " + p.stderr[-2000:])
+    else:
+        summary = json.loads(p.stdout.strip().splitlines()[-1])
+    tot = dict(states=0, transitions=0, nodes=0, bad=[], drift=[])
+    samples = []
+    if summary:
+        files = [(os.path.abspath(f), n) for f, n in summary["files"]]
+        tot = validate_forests(files, trace_module, trace_cfg, v, sig_fn, workers_per=workers_per, parallel=parallel)
+        drift_note(tot, v, impl_name)
+        if tot["nodes"] != summary["nodes"] and not v.machinery:
+            v.machinery_failure("driver logged %d nodes, TLC judged %d" % (summary["nodes"], tot["nodes"]))
+        samples = sample_fn(files)
+    rc = v.finish()
+    cov = {
+        "states": tot["states"] + sum(m["distinct"] for m in mc),
+        "transitions": tot["transitions"] + sum(m["generated"] for m in mc),
+        "traces_validated_against_impl": (summary or {}).get("leaves", 0),
+        "samples": samples or ["none"],
+        "spec_level_runs": mc,
+        "trace_tree_nodes": tot["nodes"],
+        "trace_states": tot["states"],
+        "history_families": (summary or {}).get("families"),
+        "max_history_length": (summary or {}).get("maxdepth"),
+        "violating_nodes": len(tot["bad"]),
+        "model_drift_nodes": len(tot["drift"]),
+        "known_findings_hit": {k: len(x) for k, x in v.hits.items()},
+        "repo": C.repo_head(),
+        "exhaustive": False,
+        "rule": rule,
+    }
+    if extra_cov:
+        cov.update(extra_cov)
+    C.write_evidence(pid, tier, seed, "model_checking", cov, time.time() - t0, violations=len(v.unlisted),
+                     assumptions=assumptions)
+    print("%s: %d tree nodes, %d TLC states, %d violating, %d drift, %.1fs" % (
+        pid, tot["nodes"], cov["states"], len(tot["bad"]), len(tot["drift"]), time.time() - t0))
+    shutil_rmtree(out_dir)
+    return rc
+
+
+def shutil_rmtree(d):
+    import shutil
+    shutil.rmtree(d, ignore_errors=True)
+
+
+def replay_component(pid, replay_path, driver, trace_module, trace_cfg, sig_fn, hist_fields, extra_doc=None, show=()):
+    with open(replay_path) as f:
+        doc = json.load(f)
+    hist = [{k: h[k] for k in h if k in hist_fields} for h in doc["replay"]["history"]]
+    d = C.scratch(pid.lower() + "_replay")
+    hp = os.path.join(d, "hist.json")
+    req = {"history": hist}
+    if extra_doc:
+        req.update(extra_doc(doc))
+    with open(hp, "w") as f:
+        json.dump(req, f)
+    p = C.run_py(driver, ["--replay", hp])
+    if p.returncode != 0:
+        print(p.stderr[-2000:])
+        return 2
+    evs = json.loads(p.stdout.strip().splitlines()[-1])
+    nodes = []
+    for i, ev in enumerate(evs):
+        ev["kids"] = [i + 2] if i + 1 < len(evs) else []
+        nodes.append(ev)
+    fp = os.path.join(d, "chain.json")
+    fdoc = {"roots": [1], "nodes": nodes}
+    if extra_doc:
+        fdoc.update(extra_doc(doc))
+    with open(fp, "w") as f:
+        json.dump(fdoc, f)
+    v = C.Verdict(pid)
+    validate_forests([(fp, len(nodes))], trace_module, trace_cfg, v, sig_fn, workers_per=1, parallel=1)
+    for ev in evs:
+        print(json.dumps({k: ev[k] for k in ev if k in show or k in hist_fields}))
+    return v.finish()
